@@ -576,6 +576,40 @@ fn digest_line(name: &str, entries: Result<Vec<String>, ()>) -> String {
     }
 }
 
+/// bincode 2 `standard()` varint: < 251 one byte, 251 + u16, 252 + u32, 253 + u64 (little endian)
+fn varint(b: &[u8], pos: &mut usize) -> Option<u64> {
+    let t = *b.get(*pos)?;
+    *pos += 1;
+    let n = match t {
+        0..=250 => return Some(t as u64),
+        251 => 2,
+        252 => 4,
+        253 => 8,
+        _ => return None,
+    };
+    let sl = b.get(*pos..*pos + n)?;
+    *pos += n;
+    let mut v = 0u64;
+    for (i, x) in sl.iter().enumerate() {
+        v |= (*x as u64) << (8 * i);
+    }
+    Some(v)
+}
+
+/// the coordinate file as `Vec<FPCoordinate { lat: i32, lon: i32 }>` (zigzag varints), whole file consumed
+fn decode_coord_file(b: &[u8]) -> Option<Vec<(i32, i32)>> {
+    let mut pos = 0usize;
+    let n = varint(b, &mut pos)? as usize;
+    let unzig = |u: u64| -> i32 { ((u >> 1) as i64 ^ -((u & 1) as i64)) as i32 };
+    let mut v = Vec::with_capacity(n.min(1 << 24));
+    for _ in 0..n {
+        let lat = unzig(varint(b, &mut pos)?);
+        let lon = unzig(varint(b, &mut pos)?);
+        v.push((lat, lon));
+    }
+    if pos == b.len() { Some(v) } else { None }
+}
+
 fn work_dir() -> String {
     let run_dir = std::env::var("TBX_RUN_DIR").unwrap_or_else(|_| "/verif/build/run/C07".to_string());
     let dir = format!("{run_dir}/files-{}", std::process::id());
@@ -640,7 +674,9 @@ fn execute_huge(args: &[u64], obs: &mut Vec<String>) {
     let gb = std::fs::read(&gout).unwrap_or_default();
     let cb = std::fs::read(&cout).unwrap_or_default();
     obs.push(format!("D gfile len={} sha256={}", gb.len(), sha256_hex(&gb)));
-    obs.push(format!("D cfile len={} sha256={}", cb.len(), sha256_hex(&cb)));
+    obs.push(format!("F cfile len={} sha256={}", cb.len(), sha256_hex(&cb)));
+    // decoded content of the coordinate file, for the read-back comparison below
+    let file_coords: Option<Vec<(i32, i32)>> = decode_coord_file(&cb);
     drop(gb);
     drop(cb);
     let te = catch_unwind(AssertUnwindSafe(|| io::read_graph_into_trivial_edges(&gout)));
@@ -648,7 +684,25 @@ fn execute_huge(args: &[u64], obs: &mut Vec<String>) {
     let we = catch_unwind(AssertUnwindSafe(|| io::read_vec_from_file::<InputEdge<usize>>(&gout)));
     obs.push(digest_line("wedges", we.map(|es| es.iter().map(|e| format!("{}/{}/{}", e.source, e.target, e.data)).collect()).map_err(|_| ())));
     let co = catch_unwind(AssertUnwindSafe(|| io::read_vec_from_file::<FPCoordinate>(&cout)));
-    obs.push(digest_line("coords", co.map(|cs| cs.iter().map(|c| format!("{}/{}", c.lat, c.lon)).collect()).map_err(|_| ())));
+    // the determined part of the coordinates: count, every value within one unit of the exact 10*lat_i / 10*lon_i
+    // (the file gives lat_i, lon_i in 1e-5 degree), read-back equal to the decoded file
+    let (ncheck, within, readback) = match &co {
+        Ok(cs) => {
+            let within = cs.iter().enumerate().all(|(i, c)| {
+                let lon = (7919u64 * i as u64 % 36000001) as i64 - 18000000;
+                let lat = (104729u64 * i as u64 % 18000001) as i64 - 9000000;
+                (c.lat as i64 - 10 * lat).abs() <= 1 && (c.lon as i64 - 10 * lon).abs() <= 1
+            });
+            let rb = match &file_coords {
+                Some(fc) => fc.len() == cs.len() && fc.iter().zip(cs.iter()).all(|(a, b)| a.0 == b.lat && a.1 == b.lon),
+                None => false,
+            };
+            (cs.len(), within, rb)
+        }
+        Err(_) => (0, false, false),
+    };
+    obs.push(digest_line("coords", co.map(|cs| cs.iter().map(|c| format!("{}/{}", c.lat, c.lon)).collect()).map_err(|_| ())).replacen("D ", "F ", 1));
+    obs.push(format!("D coordcheck n={ncheck} within={} readback={}", within as u8, readback as u8));
     for p in [&gpath, &cpath, &gout, &cout] {
         let _ = std::fs::remove_file(p);
     }
@@ -743,8 +797,10 @@ fn execute(case: &Case, obs: &mut Vec<String>) {
     }
     let gb = std::fs::read(&gout).unwrap_or_default();
     let cb = std::fs::read(&cout).unwrap_or_default();
+    // METIS / DDSG coordinates go through floating point: determined only up to the tolerance (class F)
+    let ccls = if fmt == "dimacs" { "D" } else { "F" };
     obs.push(format!("D gbytes={}", hex(&gb)));
-    obs.push(format!("D cbytes={}", hex(&cb)));
+    obs.push(format!("{ccls} cbytes={}", hex(&cb)));
     // the real loaders (what chipper and scaffold call)
     let te = catch_unwind(AssertUnwindSafe(|| io::read_graph_into_trivial_edges(&gout)));
     obs.push(format!(
@@ -764,7 +820,7 @@ fn execute(case: &Case, obs: &mut Vec<String>) {
     ));
     let co = catch_unwind(AssertUnwindSafe(|| io::read_vec_from_file::<FPCoordinate>(&cout)));
     obs.push(format!(
-        "D coords={}",
+        "{ccls} coords={}",
         match co {
             Ok(cs) => join(cs.iter().map(|c| format!("{}/{}", c.lat, c.lon)), ","),
             Err(_) => "ERR".to_string(),
